@@ -728,7 +728,13 @@ def Ctx.fgTopicC (c : Ctx) (sid : Sid) (tn : TName) : Ctx :=
 /-- Hub.topicsStateForUser (hub.go:347-363): the loaded p2p topics of the user and the loaded group topics the user owns become
 read-only (the account was suspended) or writable again -/
 def Ctx.opUserState (c : Ctx) (u : Uid) (susp : Bool) : Ctx :=
-  { c with w := { c.w with live := c.w.live.map (fun t =>
+  -- changeUserState: the account's state is stored first
+  let c := { c with w := { c.w with users := c.w.users.map (fun (x : User) => if x.uid = u then { x with suspended := susp } else x) } }
+  -- … and the state of the account's topics with it (UserUpdate of the adapters): the group topics it owns, the p2p topics it has
+  -- (or had) a subscription to; a deleted topic stays deleted
+  let c := { c with w := { c.w with store := c.w.store.map (fun (r : TopicRow) =>
+      if r.state ≠ 20 ∧ ((u ≠ "" ∧ r.owner = u) ∨ (r.owner = "" ∧ r.subs.any (·.user = u))) then { r with state := if susp then 10 else 0 } else r) } }
+  { c with w := { c.w with live := c.w.live.map (fun (t : Topic) =>
       if (isP2PKey t.name ∧ (t.pud? u).isSome) ∨ (u ≠ "" ∧ t.owner = u) then { t with readOnly := susp } else t) } }
 
 def World.isChanTopic (w : World) (tn : TName) : Bool :=
